@@ -116,6 +116,28 @@ CLAIMED = {
                      "contracts on real runs with and without injected transient failures.",
                 note=TRUST + " Run loops are NOT proved (bounded only); partial correctness for generate().",
                 tech="deductive verification of the step functions (loop invariants, ghost results; pyvc/z3) + bounded run-time evaluation of run-level contracts"),
+    "C12": dict(cat="other", ref="5/C12, 9.4",
+                text="Partial: the Van der Corput sequence is proved to be the radical inverse of each index for every base and length "
+                     "(loop invariant over a recursive spec function), the affine map of unit samples to the bounds, the random generator "
+                     "(exactly N in-bounds designs) and the level lists of the uniform generator are proved; the numpy parts (LHS "
+                     "stratification, prime bases and burn-in of Halton, grid completeness through itertools.product) are bounded "
+                     "run-time contracts against independent references.",
+                note=TRUST + " numpy code is outside the subset: those clauses are bounded only.",
+                tech="deductive verification (loop invariants, recursive spec function, region contract; pyvc/z3) + bounded run-time contract evaluation for the numpy parts"),
+    "C10": dict(cat="other", ref="5/C10, 9.4",
+                text="Partial: the statement / commit discipline of SqliteDataStore.sync_individual and sync_all is proved against an abstract "
+                     "sqlite3 connection with ghost counters (the upsert text is read from the real source); the JSON / SQLite round trip itself "
+                     "is a bounded run-time contract on real files (special floats bit-exact, numpy scalars, nested custom data, re-synchronised "
+                     "ids, completeness after runs).",
+                note=TRUST + " json and sqlite3 are external libraries: their behaviour is assumed for the proof and exercised only by the bounded part.",
+                tech="deductive verification of call sequences against an abstract sqlite3 model with ghost state (pyvc/z3) + bounded run-time round trips through real SQLite files"),
+    "C11": dict(cat="other", ref="5/C11, 9.4",
+                text="Partial: proved that a design reaches the store only when its evaluation is complete (call-site precondition in Job.evaluate) and "
+                     "that sync_individual returns only after its upsert is committed with nothing pending (all paths incl. retry); with SQLite's atomic "
+                     "commit (assumed) this gives durability of every synchronised design and no partial rows. Readability after process death is a "
+                     "bounded crash exploration (os._exit at every objective call and before/after every execute and commit of a small serial run).",
+                note=TRUST + " SQLite atomicity is assumed; crash points are enumerated for one small configuration only (bounded).",
+                tech="deductive verification of the ordering contracts (ghost pending-statement counter; pyvc/z3) + bounded crash-point enumeration on the real code"),
 }
 NA = {
     "C07": "quantifies over thread interleavings; the contract verifier has sequential semantics only and no installed tool gives "
